@@ -1,7 +1,8 @@
 (* C12 - Printing and parsing are inverse and printing is unambiguous. *)
-From Coq Require Import List Bool String Ascii.
-From Y0 Require Import Base.ListSet Dsl.Syntax Dsl.Tok Dsl.Build Dsl.Print Dsl.Parse Proofs.DslP Proofs.RoundTripBounded Proofs.TokenizeP Proofs.ParseP Proofs.EvalP.
+From Coq Require Import List Bool String Ascii QArith.
+From Y0 Require Import Base.ListSet Dsl.Syntax Dsl.Tok Dsl.Build Dsl.Print Dsl.Parse Proofs.DslP Proofs.RoundTripBounded Dsl.Sem Proofs.TokenizeP Proofs.ParseP Proofs.EvalP Proofs.EvalSemP.
 Import ListNotations.
+Close Scope Q_scope.
 Open Scope string_scope.
 
 (* Full statement of the object-equality clause (kept visible). Proved below (C12_round_trip) with [wf_rt] - operator normal form - in place of
@@ -33,6 +34,23 @@ Example C12_parse_not_vacuous :
   names_ok e = true /\ printable e = true /\
   exists s p, ast_of e = ABin "/"%char (ACall s [ABin "*"%char (ACall (AName "P") [ABin "|"%char (AName "A") (AName "B")]) (ACall (AName "P") [AName "B"])]) p.
 Proof. cbv zeta. split; [reflexivity|]. split; [reflexivity|]. eexists. eexists. vm_compute. reflexivity. Qed.
+
+(* THE MEANING CLAUSE, unbounded: for every printable expression over well-formed terms [wf_sem] - ANY nesting of products, sums and
+   divisions: fractions of fractions, fractions as factors of products, unsorted products, constants - parsing the printed form
+   yields [reparse e], the object obtained by applying y0's overloaded operators along the printed tree, and that object denotes the
+   same function of the distribution and of the variables' values as e, in every model (eval over Q, Dsl/Sem.v; an exception raised
+   while re-building - only possible when a re-built denominator is Zero - is an [EErr] value and denotes 0, as does x / 0 in Q). *)
+Theorem C12_parsed_text_means_what_the_object_means e :
+  wf_sem e = true ->
+  parse_y0 (to_y0 e) = reparse e /\ forall m r, (eval m (parse_y0 (to_y0 e)) r == eval m e r)%Q.
+Proof. exact (parse_meaning e). Qed.
+
+(* not vacuous: ((P(A) / P(B)) / (P(C) / P(A))) * Sum[B](P(A | B)) - a fraction of fractions as a factor of a product *)
+Example C12_meaning_not_vacuous :
+  let pA := EProb None [V 0] [] in let pB := EProb None [V 1] [] in let pC := EProb None [V 2] [] in
+  let e := EProd [EFrac (EFrac pA pB) (EFrac pC pA); ESum (EProb None [V 0] [V 1]) [V 1]] in
+  wf_sem e = true /\ wf_rt e = false /\ parse_y0 (to_y0 e) <> e /\ is_err (parse_y0 (to_y0 e)) = false.
+Proof. vm_compute. repeat split; try reflexivity. discriminate. Qed.
 
 (* THE OBJECT-EQUALITY CLAUSE, unbounded: for every expression in operator normal form [wf_rt] - what the public operators build:
    terms (long form P(..) and short form P[interventions](..), plain or population-tagged) with sorted duplicate-free children and
@@ -77,6 +95,7 @@ Proof. exact round_trip_bounded. Qed.
 
 Print Assumptions C12_tokenizer_reads_back_the_printed_tokens.
 Print Assumptions C12_printed_text_parses_to_the_intended_tree.
+Print Assumptions C12_parsed_text_means_what_the_object_means.
 Print Assumptions C12_round_trip.
 Print Assumptions C12_normal_form_covers_the_family.
 Print Assumptions C12_product_denominator_is_bracketed.
